@@ -578,6 +578,31 @@ class Evaluator(object):
                 bb = b if b.t == a.t else self.coerce(b, a.t)
                 return SV(a.t.ops(cx)["concat"](a.e, bb.e), a.t)
         if isinstance(node.op, ast.Mod) and isinstance(a.t, TStr):
+            # a literal format made of '%s' placeholders only, applied to str values, is the concatenation of its pieces and those values
+            # ('%s#%s' % (url, fragment) is url + '#' + fragment); anything else is an uninterpreted function of format and argument
+            if isinstance(node.left, ast.Constant) and isinstance(node.left.value, str):
+                pieces = node.left.value.split("%s")
+                vals = None
+                if isinstance(b.t, TStr):
+                    vals = [b]
+                elif isinstance(b.t, TTuple):
+                    items = (b.meta or {}).get("tuple_items") or [SV(b.t.proj(cx, b.e, i), ti) for i, ti in enumerate(b.t.items)]
+                    def as_str(i):
+                        # '%s' of None is the text 'None'
+                        if isinstance(i.t, TOpt) and isinstance(i.t.inner, TStr):
+                            return SV(z3.If(i.t.is_none(cx, i.e), cx.str_lit("None"), i.t.get(cx, i.e)), TStr())
+                        return i
+                    items = [as_str(i) for i in items]
+                    if all(isinstance(i.t, TStr) for i in items):
+                        vals = items
+                if vals is not None and len(pieces) == len(vals) + 1 and not any("%" in p_ for p_ in pieces):
+                    cc = self.fx.lib.str_concat
+                    e = cx.str_lit(pieces[0])
+                    for v, p_ in zip(vals, pieces[1:]):
+                        e = cc(e, v.e)
+                        if p_ != "":
+                            e = cc(e, cx.str_lit(p_))
+                    return SV(e, TStr())
             f = cx.func("str_format_" + mangle(b.t.name), cx.Str, b.t.sort(cx), cx.Str)
             return SV(f(a.e, b.e), TStr())
         raise Outside("binary op %s on %s, %s" % (type(node.op).__name__, a.t, b.t))
